@@ -17,8 +17,9 @@ func decorate(sp RespSpec, k int) RespSpec {
 	case "redir":
 		sp.Code = []int{302, 301, 303}[k%3]
 	case "neterr":
-		if k%3 == 1 {
-			sp.Var, sp.Code = "bodyerr", []int{200, 404, 503}[k%3]
+		sp.Var = []string{"", "bodyerr", "wrapdeadline", "wrapcanceled", "urldeadline", "", "wrapdeadline"}[k%7]
+		if sp.Var == "bodyerr" {
+			sp.Code = []int{200, 404, 503}[k%3]
 		}
 	case "bad200":
 		sp.Var = []string{"", "empty", "trunc"}[k%3]
@@ -86,8 +87,9 @@ func randScenario(rng *rand.Rand) Scenario {
 			} else {
 				cs.CtxKind = []string{"deadline", "cancel"}[rng.Intn(2)]
 				tail := []RespSpec{{Cls: "s503", Rak: "none"}, {Cls: "s503", Rak: "none"}, {Cls: "s429", Rak: "secs", Rav: 2},
-					{Cls: "neterr", Rak: "none"}, {Cls: "bad200", Rak: "none"}, {Cls: "s429", Rak: "none"}, {Cls: "redir", Rak: "none"},
-					{Cls: "s503", Rak: "date", Rav: 3}}[rng.Intn(8)]
+					{Cls: "neterr", Rak: "none"}, {Cls: "bad200", Rak: "none"}, {Cls: "neterr", Rak: "none", Var: "wrapdeadline"}, {Cls: "redir", Rak: "none"},
+					{Cls: "neterr", Rak: "none", Var: "wrapcanceled"},
+					{Cls: "s503", Rak: "date", Rav: 3}}[rng.Intn(9)]
 				cs.Tail = &tail
 				span := []int{0, 300, 1000, 2999, 6500, 15000, 40000, 300000, 700000}[rng.Intn(9)]
 				// no "408 for ever": the code retries a 408 at once, and with a server that answers in zero
